@@ -352,7 +352,7 @@ func phase1() {
 func phase1Service() {
 	d := <-dirPool
 	defer func() { dirPool <- d }()
-	for _, syms := range []string{"V", "VTM", "PBMRXMT", "MMV"} {
+	for _, syms := range []string{"V", "VTM", "PBMRVMT", "MMV"} {
 		cleanDir(d)
 		seq := buildSeq(syms, 1)
 		w := openWAL(d, 0)
@@ -480,6 +480,17 @@ func (b blog) completeLines(k int) (withNL, content int) {
 	return
 }
 
+func (b blog) atBoundary(k int) bool {
+	pos := 0
+	for _, it := range b.seq {
+		if pos == k {
+			return true
+		}
+		pos += len(it.line)
+	}
+	return pos == k
+}
+
 func (b blog) concat() []byte {
 	var out []byte
 	for _, f := range b.files {
@@ -534,7 +545,7 @@ func checkTrunc(b blog, how string, k int, rd reading) {
 		}
 	case len(s) > lo:
 		r.Outcome("trunc_prefix_incl_unterminated_full_line_then_EOF")
-	case lo == hi:
+	case b.atBoundary(k):
 		r.Outcome("trunc_at_line_boundary_prefix_then_EOF")
 	default:
 		r.Outcome("trunc_midline_prefix_then_EOF")
@@ -743,7 +754,9 @@ func phase3(logs []blog) {
 			hp = fmt.Sprintf("%s.%03d", hp, ref.file)
 		}
 		line := b.seq[c].line
-		onFiles := r.Thorough() || len(line) <= 700 // big lines: in-memory stream only in quick
+		// quick: real files for the small line kinds in one layout per log (rotated one for pairs); every line
+		// also goes through the same decoder on the in-memory stream
+		onFiles := r.Thorough() || (len(line) <= 700 && (len(b.seq) == 1 || len(b.files) > 1))
 		for off := 0; off < len(line); off++ {
 			if off%64 == 0 && expired() {
 				return
@@ -986,18 +999,18 @@ func main() {
 	run := func(p string) bool { return only == "" || strings.Contains(only, p) }
 	logs := byteLogs()
 	if run("4") {
-		setPhaseShare(0.30)
+		setPhaseShare(0.25)
 		phase4()
 		fmt.Printf("P4 done at %.1fs evals=%d\n", time.Since(runStart).Seconds(), r.Evals())
 	}
 	if run("1") {
-		setPhaseShare(0.55)
+		setPhaseShare(0.40)
 		phase1Service()
 		phase1()
 		fmt.Printf("P1 done at %.1fs evals=%d\n", time.Since(runStart).Seconds(), r.Evals())
 	}
 	if run("2") {
-		setPhaseShare(0.75)
+		setPhaseShare(0.65)
 		phase2(logs)
 		fmt.Printf("P2 done at %.1fs evals=%d\n", time.Since(runStart).Seconds(), r.Evals())
 	}
